@@ -1,8 +1,9 @@
 """C12 -- conversion preferences only restrict, and keep their promises"""
+import enum
 import uuid
 from datetime import date, datetime, time, timedelta
 from decimal import Decimal
-from typing import Dict, List, Tuple, Union
+from typing import Dict, List, Optional, Tuple, Union
 
 from utype import Options, Rule, Schema
 from utype.utils.transform import TypeTransformer, type_transform
@@ -26,6 +27,16 @@ class IntSub(int):
 
 class StrSub(str):
     pass
+
+
+class Level(int, enum.Enum):
+    low = 1
+    high = 2
+
+
+class Grade(float, enum.Enum):
+    half = 0.5
+    one = 1.0
 
 
 class ListSub(list):
@@ -60,6 +71,7 @@ TARGETS = {
     'int': int, 'float': float, 'str': str, 'bool': bool, 'none': type(None), 'bytes': bytes, 'decimal': Decimal,
     'list': list, 'tuple': tuple, 'set': set, 'frozenset': frozenset, 'dict': dict,
     'date': date, 'datetime': datetime, 'time': time, 'timedelta': timedelta, 'uuid': uuid.UUID, 'enum': Color,
+    'IntEnum': Level, 'FloatEnum': Grade, 'Optional[int]': Rule.parse_annotation(Optional[int]),
     'IntSub': IntSub, 'StrSub': StrSub, 'ListSub': ListSub, 'DictSub': DictSub,
     'List[int]': Rule.parse_annotation(List[int]), 'Tuple[int,str]': Rule.parse_annotation(Tuple[int, str]),
     'Dict[str,int]': Rule.parse_annotation(Dict[str, int]), 'DC': DC,
@@ -174,8 +186,12 @@ def _prefs(V, tname):
     g = groups_of(x)
     if loss[0] == 'ok':
         y = loss[1]
-        if tname in ('int', 'IntSub') and isinstance(x, (int, float, Decimal)) and not isinstance(x, bool):
+        if tname in ('int', 'IntSub', 'IntEnum', 'Optional[int]') and isinstance(x, (int, float, Decimal)) and not isinstance(x, bool):
             V.check(y == x, 'loss:int-value-changed', det)
+        if tname == 'List[int]' and isinstance(x, (list, tuple)) and len(y) == len(x):
+            for xi, yi in zip(x, y):
+                if isinstance(xi, (int, float, Decimal)) and not isinstance(xi, bool):
+                    V.check(yi == xi, 'loss:int-value-changed:element', det)
         if tname == 'bool' and not isinstance(x, bool):
             unambiguous = (isinstance(x, (int, float, Decimal)) and (x == 0 or x == 1)) or \
                           (isinstance(x, str) and x.lower() in TRUE_FALSE) or \
